@@ -534,7 +534,7 @@ def check_case(fn, args, resp, known_ids):
     if fn in ROUND_FNS or fn in ('INT', 'EVEN'):
         sv = un_value(spec)[1]
         sf = as_float(sv)
-        expected = f'float({spec})={sf!r}'
+        expected = f'{sf!r} = float({spec[:48]})'
         xv = Fraction(args[0]) if not isinstance(args[0], float) else Fraction(Decimal(repr(args[0])))
         nontrivial = Fraction(sv) != xv
         if math.isinf(sf):
@@ -553,20 +553,19 @@ def check_case(fn, args, resp, known_ids):
             return (f'violation:{fn} outside its domain does not give an Excel error', expected, got, True)
         sv = un_value(spec)[1]
         sf = as_float(sv)
-        expected = f'float({spec[:60]})={sf!r}'
+        expected = f'{sf!r} = float({spec[:48]})'
         x, s = Fraction(Decimal(repr(float(args[0])))), Fraction(Decimal(repr(float(args[1]))))
         nontrivial = sv != x
         if s != 0 and abs(x / s) >= 2 ** 1023 and real[0] == 'err':
             # number / significance leaves the double range: an Excel error is accepted (ASSUMPTIONS)
             return ('ok', expected + ' or an Excel error', got, False)
-        exact_zone = s.denominator == 1 and abs(x) < TWO53 and abs(sv) <= TWO53 and abs(s) < TWO53
+        exact_zone = s.denominator == 1 and abs(x) < TWO53 and abs(s) < TWO53
         if real[0] == 'val':
-            # above 2^53 a double cannot hold the exact multiple: 4 ulp, or one step of the significance
-            loose = s.denominator == 1 and not exact_zone and \
-                (close(real[1], sf) or abs(Fraction(real[1]) - sv) <= abs(s))
+            # exact where double arithmetic is exact; where a double cannot hold the exact multiple
+            # (integer significance, operands beyond 2^53) ulp-level noise is accepted
+            loose = s.denominator == 1 and not (exact_zone and abs(sv) <= TWO53) and close(real[1], sf)
             if as_float(real[1]) == sf or loose:
-                return ('ok' if model_agrees(0 if exact_zone else ULPS) or loose else 'drift', expected, got,
-                        nontrivial)
+                return ('ok' if model_agrees(ULPS if loose else 0) else 'drift', expected, got, nontrivial)
         if kf == 'D1605' and 'D1605' in known_ids and real[0] == 'val' and real[1] == 0:
             return ('known:D1605', expected, got, True)
         if kf == 'D37' and 'D37' in known_ids:
